@@ -84,6 +84,21 @@ CHECKS = {
             "Trusted: reference Gram matrix/eigh; admissibility (spectral gap) decided from the reference; ARPACK start vector fixed "
             "by wrapping scipy eigsh/eigs. The sptensor dense-path defect is pinned by its own doctest (3 known findings).",
             TECH_PRODUCT, "DESIGN.md §6 C14"),
+    "C05": ("A catalogue with a case generator for every one of 281 public operations found by introspection of the 7 classes, "
+            "the module-level functions/helpers and the algorithm entry points (a public name without a generator or a documented "
+            "exemption fails the run) is explored as depth-2 histories: operation; then an in-place write to ONE leaf (every "
+            "reachable ndarray of operands and result, one at a time) and an observation of the other side; plus bit-level operand "
+            "snapshots across the call and an object-identity check for results without writable leaves.",
+            "Trusted: mc/observe.py leaf walker finds every array reachable from pyttb objects; documented in-place operations and "
+            "copy=False constructors are exempt as stated in the property; gcp_opt normalising its init is a known finding (functional-test-pinned).",
+            TECH_BFS, "DESIGN.md §6 C05"),
+    "C08": ("normalize/arrange/fixsigns/redistribute/extract/permute/tovec/from_vector/update/tolist, +,-,neg,scalar* and score are "
+            "run on every Kruskal tensor of the scope (shapes <= 12/18 cells, ranks 1-3, EVERY weight pattern over {2,-1,0,1}^R, zero "
+            "columns, both/three norm types, every absorbing mode incl. 'all', every component permutation and ordered subset, every "
+            "per-mode sign-flip pattern of the reference for fixsigns(ref)) plus 12 depth-2 compositions; the Kruskal value is "
+            "recomputed from weights/factors by the reference formula and the promised normal form is asserted.",
+            "Trusted: mc/refmodel.py kruskal(); integer factor entries; tolerance 1e-12*scale where normalisation divides.",
+            TECH_PRODUCT, "DESIGN.md §6 C08"),
 }
 PENDING = {f"C{i:02d}": "check not built yet in this phase (planned, see DESIGN.md §6)" for i in range(1, 21) if f"C{i:02d}" not in CHECKS}
 NOT_APPLICABLE = {}
